@@ -165,10 +165,11 @@ func isMarker(data []byte) (name string, after []byte) {
 	}
 	if i := bytes.IndexByte(data, '\n'); i >= 0 {
 		data, after = data[:i], data[i+1:]
-		if data[i-1] == '\r' {
-			data = data[:len(data)-1]
-		}
 	}
+	// A marker line may end in \r\n. A final \r also ends the line when the
+	// final newline is missing, because a missing final newline is considered
+	// present (fixNL adds it, turning the \r into \r\n when reformatted).
+	data = bytes.TrimSuffix(data, []byte("\r"))
 	if !(bytes.HasSuffix(data, markerEnd) && len(data) >= len(marker)+len(markerEnd)) {
 		return "", nil
 	}
